@@ -221,7 +221,8 @@ class Gen:
         body = ['x = 0', 'y = 1', 'i = 5']
         for st in self.block(self.depth, False):
             body += st
-        body += ['return (x, y, i)']
+        if self.rng.random() < 0.75:
+            body += ['return (x, y, i)']      # otherwise the function ends with whatever came last (implicit return None)
         return 'def f(o):\n' + '\n'.join('    ' + l for l in body) + '\n'
 
 
@@ -264,6 +265,9 @@ SYSTEMATIC = [
     "def f(o):\n    x = 0\n    y = 0\n    while o(1):\n        x += 1\n        while o(2):\n            y += 1\n            if o(3):\n                y += 10\n                break\n        else:\n            x += 5\n    else:\n        y += 100\n    return (x, y)\n",
     "def f(o):\n    x = 0\n    if o(1):\n        x += 1\n        if o(2):\n            x += 2\n            return x\n        x += 3\n    else:\n        x += 4\n    x += 5\n    return x\n",
     "def f(o):\n    x = 0\n    for j in o.it(1):\n        x += j\n        if o(2):\n            x += 10\n            continue\n        x += 100\n        if o(3):\n            x += 1000\n            break\n    else:\n        x += 7\n    return x\n",
+    "def f(o):\n    x = 0\n    for j in o.it(1):\n        x += j\n        if o(2):\n            x += 10\n            break\n    else:\n        x += 1\n        return x\n",
+    "def f(o):\n    x = 0\n    if o(1):\n        while o(2):\n            x += 1\n            if o(3):\n                x += 5\n                break\n        else:\n            x += 2\n            return x\n    else:\n        x += 3\n        return -x\n",
+    "def f(o):\n    x = 0\n    while o(1):\n        x += 1\n",
     "def f(o):\n    pass\n",
     "def f(o):\n    x = o(1)\n",
     "def f(o):\n    while o(1):\n        pass\n    return 1\n",
